@@ -1,7 +1,7 @@
 T = "GeomV.C02."
 CFG = {
     "id": "C02",
-    "lean_modules": ["GeomV.C02.Proofs", "GeomV.C02.Ties", "GeomV.C02.ProofsFloat"],
+    "lean_modules": ["GeomV.C02.Proofs", "GeomV.C02.Ties", "GeomV.C02.ProofsFloat", "GeomV.C02.IEEE", "GeomV.C02.TiesLoops", "GeomV.C02.ProofsIEEE"],
     "exe": "geomv_c02",
     "go_cmd": "c02",
     "stages": ["go:gen", "go:impl", "lean:judge"],
@@ -9,21 +9,34 @@ CFG = {
                                  "C02_closed_walk_even", "C02_bbox_prefilter_sound", "C02_point", "C02_point_no_panic",
                                  "C02_receivers_points", "C02_receivers_multiline", "C02_receivers_polygon", "C02_closed_spelling",
                                  "C02_tie_pointSubtract", "C02_tie_pointOnSegment", "C02_tie_rayIntersectsSegment", "C02_tie_Bounds_Empty", "C02_tie_Bounds_Overlaps",
-                                 "C02_float_ray_exact_on_grid", "C02_float_onSegment_exact_on_grid", "C02_float_point_exact_on_grid"]],
+                                 "C02_float_ray_exact_on_grid", "C02_float_onSegment_exact_on_grid", "C02_float_point_exact_on_grid",
+                                 "C02_float_ray_exact_on_scaled_grid", "C02_float_onSegment_exact_on_scaled_grid", "C02_float_point_exact_on_scaled_grid",
+                                 "C02_rne_rounding",
+                                 "C02_tie_pointInPolygonal", "C02_tie_pointInPolygon", "C02_tie_ringBounds", "C02_tie_extendPoints",
+                                 "C02_tie_Point_Within", "C02_tie_MultiPoint_Within", "C02_tie_LineString_Within",
+                                 "C02_tie_MultiLineString_Within", "C02_tie_Polygon_Within",
+                                 "C02_float_point_regenerated", "C02_ieee_point_exact_on_scaled_grid",
+                                 "C02_ieee_ray_exact_on_scaled_grid", "C02_ieee_onSegment_exact_on_scaled_grid"]],
     "lean_dirs": ["C02"],
     "trusted_base": [
         "Lean 4.33.0 kernel; axioms of every theorem printed by #print axioms must be within {propext, Classical.choice, Quot.sound}",
         "model lean/GeomV/C02/Model.lean (exact Rat arithmetic, four-valued float division FQ, extended-rational Bounds) is tied to "
         "/repo/{within,simplify,area,bounds,multipoint,linestring,multilinestring,polygon}.go by the correspondence run on every check: "
         "exact three-valued status, exhaustive on half-integer grids",
-        "T1: harness/cmd/c02/extract.go (go/ast, ~400 lines) regenerates lean/GeomV/C02/Gen.lean (pointSubtract, pointOnSegment, "
-        "rayIntersectsSegment, (*Bounds).Empty, (*Bounds).Overlaps; and namespace GenR: the first three with every float - and / rounded by an "
-        "abstract rnd) from the tree under test on every run; Ties.lean proves Gen.f = Model.f by rfl; the translation of float "
-        "division/comparison into FQ (fdiv, fdivR, FQ.eq, FQ.ge) and of box-field comparisons into ERat.le is part of the trusted base and is "
-        "exercised by the correspondence run",
-        "IEEE-754 rounding: on the half-integer grid (|k/2|, |k| <= 2^11) PROVED (ProofsFloat.lean) for every rounding function that is monotone "
-        "and fixes the doubles m/2^40, |m| <= 2^53; that IEEE round-to-nearest is such a function is trusted. Off that grid (dyadic scales, "
-        "margin-protected floats) rounding is checked by the correspondence run, not proved",
+        "T1: harness/cmd/c02/extract.go + extract_loops.go (go/ast, ~1100 lines) regenerate lean/GeomV/C02/Gen.lean from the tree under test on "
+        "every run: namespace Gen (pointSubtract, pointOnSegment, rayIntersectsSegment, (*Bounds).Empty, (*Bounds).Overlaps, (Point).Equals), "
+        "namespace GenR (the first three with every float - and / rounded by rnd) and namespace GenL: the LOOPS (invert, NewBounds, NewBoundsPoint, "
+        "extendPoint, extendPoints, ringBounds, pointInPolygon, pointInPolygonal and the five Within receivers) in the monad Except Fault with "
+        "faulting index operations (GenLib.lean: idx, setIdx, forRange, forInt with early return/continue as Ctl values). Ties.lean proves "
+        "Gen.f = Model.f by rfl; TiesLoops.lean proves the loops equal to the model by induction (C02_tie_pointInPolygonal etc.). The "
+        "translation of float division/comparison into FQ (fdiv, fdivR, FQ.eq, FQ.ge), of box fields into ERat (math.Min/Max = ERat.min/max), of "
+        "pg.Polygons() into the model's Polygonal.polygons, of reflect.DeepEqual(p, poly) into `poly = .polygon p`, and the value semantics of "
+        "slices/pointers (no aliasing; make = zero values) are part of the trusted base and are exercised by the correspondence run",
+        "IEEE-754 rounding: on the half-integer grid times 2^s ((k/2)*2^s, |k| <= 2^11, -1000 <= s <= 900) PROVED (ProofsFloat.lean) for every "
+        "rounding function that is monotone and fixes the doubles m*2^e (|m| <= 2^53, -1074 <= e <= 970); IEEE.lean PROVES that roundTiesToEven "
+        "(rne, defined from the bit-level Dec.roundPos of C17 via its specification IsRNE) is such a function, ProofsIEEE.lean instantiates. "
+        "What is trusted: that the hardware implements roundTiesToEven for - and /, and the reading `every - and / is rounded once` (GenR). "
+        "Off those grids (margin-protected arbitrary floats) rounding is checked by the correspondence run, not proved",
         "harness/cmd/c02 + lean driver + lib/vcheck.py transport inputs faithfully",
     ],
     "assumptions": ["finite coordinates (NaN/±Inf are outside the exact model; -0.0 is identified with 0 and exercised by the correspondence run)",
@@ -72,7 +85,7 @@ def pregen(check):
         return  # reported as a broken tie by the harness build of the main flow
     p = subprocess.run([gobin, "extract", "--repo", vcheck.REPO], stdout=subprocess.PIPE, stderr=subprocess.PIPE, text=True)
     if p.returncode != 0:
-        check.broken.append("T1 tie: simplify.go/within.go left the translatable subset: " + p.stderr.strip()[-300:])
+        check.broken.append("T1 tie: simplify.go/within.go/bounds.go/area.go/receivers left the translatable subset: " + p.stderr.strip()[-300:])
         return
     gen = os.path.join(vcheck.LEAN, "GeomV", "C02", "Gen.lean")
     old = open(gen).read() if os.path.exists(gen) else ""
